@@ -46,4 +46,21 @@ SCENARIOS = {
         "M4", "module", [], ops=("Not", "Noop"), loads=("TRUE",), containers=("nested",), max_depth=3, orders=True,
         funcs=(("f", [B], [B]), ("main", [B, B], None)), extra={"fn_ops": ("call",), "metadata": True},
     ),
+    # D3 - constants as separate nodes (local / root, loaded twice) and inserted fragments
+    "D3": Scenario("D3", "dfg", [B], ops=("Not",), loads=("TRUE", "INT"), containers=("nested",), max_depth=2,
+                   extra={"const_ops": True, "inserts": ("dfg", "cfg", "cond", "loop")}),
+    # C2 - conditional over a 3-variant unit sum, linear other-inputs
+    "C2": Scenario("C2", "dfg", [Q], ops=("Noop",), loads=("U3",), containers=("cond",), max_depth=2),
+    # K1 - tracked dataflow builder driven by indices
+    "K1": Scenario("K1", "tracked", [B, I, I], ops=("Not", "Noop", "DivMod"), loads=(), max_depth=1),
+    # M5 - a function defined inside a dataflow region, module-level constants
+    "M5": Scenario(
+        "M5", "module", [], ops=("Not",), loads=("TRUE",), containers=("nested",), max_depth=3,
+        funcs=(("main", [B], None),),
+        extra={"fn_ops": ("call", "loadfn"), "local_defs": (("inner", [B], [B]),), "const_ops": True, "max_consts": 1},
+    ),
+    # G2 - containers nested inside basic blocks, linear values through blocks
+    "G2": Scenario("G2", "dfg", [Q, B], ops=("Noop",), containers=("cfg", "nested"), max_depth=4, extra={"max_blocks": 2}),
+    # L2 - loops with a linear rest value and nesting
+    "L2": Scenario("L2", "dfg", [Q, B], ops=("Noop", "Not"), containers=("loop", "nested"), max_depth=3),
 }
